@@ -9,61 +9,7 @@ Open Scope list_scope.
 Open Scope Z_scope.
 Ltac Zify.zify_post_hook ::= Z.to_euclidean_division_equations.
 
-(* ---- dispatch: which class the specification assigns to a function / sub-function code ---- *)
-
-Definition spec_request_class (fc : Z) : option cls :=
-  if fc =? 1 then Some ReadCoilsRequest else if fc =? 2 then Some ReadDiscreteInputsRequest else
-  if fc =? 3 then Some ReadHoldingRegistersRequest else if fc =? 4 then Some ReadInputRegistersRequest else
-  if fc =? 5 then Some WriteSingleCoilRequest else if fc =? 6 then Some WriteSingleRegisterRequest else
-  if fc =? 7 then Some ReadExceptionStatusRequest else if fc =? 8 then Some DiagnosticStatusRequest else
-  if fc =? 11 then Some GetCommEventCounterRequest else if fc =? 12 then Some GetCommEventLogRequest else
-  if fc =? 15 then Some WriteMultipleCoilsRequest else if fc =? 16 then Some WriteMultipleRegistersRequest else
-  if fc =? 17 then Some ReportSlaveIdRequest else if fc =? 20 then Some ReadFileRecordRequest else
-  if fc =? 21 then Some WriteFileRecordRequest else if fc =? 22 then Some MaskWriteRegisterRequest else
-  if fc =? 23 then Some ReadWriteMultipleRegistersRequest else if fc =? 24 then Some ReadFifoQueueRequest else
-  if fc =? 43 then Some ReadDeviceInformationRequest else None.
-
-Definition spec_response_class (fc : Z) : option cls :=
-  if fc =? 1 then Some ReadCoilsResponse else if fc =? 2 then Some ReadDiscreteInputsResponse else
-  if fc =? 3 then Some ReadHoldingRegistersResponse else if fc =? 4 then Some ReadInputRegistersResponse else
-  if fc =? 5 then Some WriteSingleCoilResponse else if fc =? 6 then Some WriteSingleRegisterResponse else
-  if fc =? 7 then Some ReadExceptionStatusResponse else if fc =? 8 then Some DiagnosticStatusResponse else
-  if fc =? 11 then Some GetCommEventCounterResponse else if fc =? 12 then Some GetCommEventLogResponse else
-  if fc =? 15 then Some WriteMultipleCoilsResponse else if fc =? 16 then Some WriteMultipleRegistersResponse else
-  if fc =? 17 then Some ReportSlaveIdResponse else if fc =? 20 then Some ReadFileRecordResponse else
-  if fc =? 21 then Some WriteFileRecordResponse else if fc =? 22 then Some MaskWriteRegisterResponse else
-  if fc =? 23 then Some ReadWriteMultipleRegistersResponse else if fc =? 24 then Some ReadFifoQueueResponse else
-  if fc =? 43 then Some ReadDeviceInformationResponse else None.
-
-(* section 6.8: diagnostic sub-functions 0-4, 10-18, 20; 19 and 21 are the (legacy) IOP overrun /
-   Modbus Plus codes pymodbus registers as well; section 6.21: MEI type 14 under function 43 *)
-Definition spec_request_subclass (fc sub : Z) : option cls :=
-  if fc =? 8 then
-    if sub =? 0 then Some ReturnQueryDataRequest else if sub =? 1 then Some RestartCommunicationsOptionRequest else
-    if sub =? 2 then Some ReturnDiagnosticRegisterRequest else if sub =? 3 then Some ChangeAsciiInputDelimiterRequest else
-    if sub =? 4 then Some ForceListenOnlyModeRequest else if sub =? 10 then Some ClearCountersRequest else
-    if sub =? 11 then Some ReturnBusMessageCountRequest else if sub =? 12 then Some ReturnBusCommunicationErrorCountRequest else
-    if sub =? 13 then Some ReturnBusExceptionErrorCountRequest else if sub =? 14 then Some ReturnSlaveMessageCountRequest else
-    if sub =? 15 then Some ReturnSlaveNoResponseCountRequest else if sub =? 16 then Some ReturnSlaveNAKCountRequest else
-    if sub =? 17 then Some ReturnSlaveBusyCountRequest else if sub =? 18 then Some ReturnSlaveBusCharacterOverrunCountRequest else
-    if sub =? 19 then Some ReturnIopOverrunCountRequest else if sub =? 20 then Some ClearOverrunCountRequest else
-    if sub =? 21 then Some GetClearModbusPlusRequest else None
-  else if fc =? 43 then (if sub =? 14 then Some ReadDeviceInformationRequest else None)
-  else None.
-
-Definition spec_response_subclass (fc sub : Z) : option cls :=
-  if fc =? 8 then
-    if sub =? 0 then Some ReturnQueryDataResponse else if sub =? 1 then Some RestartCommunicationsOptionResponse else
-    if sub =? 2 then Some ReturnDiagnosticRegisterResponse else if sub =? 3 then Some ChangeAsciiInputDelimiterResponse else
-    if sub =? 4 then Some ForceListenOnlyModeResponse else if sub =? 10 then Some ClearCountersResponse else
-    if sub =? 11 then Some ReturnBusMessageCountResponse else if sub =? 12 then Some ReturnBusCommunicationErrorCountResponse else
-    if sub =? 13 then Some ReturnBusExceptionErrorCountResponse else if sub =? 14 then Some ReturnSlaveMessageCountResponse else
-    if sub =? 15 then Some ReturnSlaveNoReponseCountResponse else if sub =? 16 then Some ReturnSlaveNAKCountResponse else
-    if sub =? 17 then Some ReturnSlaveBusyCountResponse else if sub =? 18 then Some ReturnSlaveBusCharacterOverrunCountResponse else
-    if sub =? 19 then Some ReturnIopOverrunCountResponse else if sub =? 20 then Some ClearOverrunCountResponse else
-    if sub =? 21 then Some GetClearModbusPlusResponse else None
-  else if fc =? 43 then (if sub =? 14 then Some ReadDeviceInformationResponse else None)
-  else None.
+(* the specification's dispatch tables (spec_request_class, ...) are in theories/PduSpec.v *)
 
 (* case analysis on the code, one constant at a time (no sweep): in the equal case both sides compute *)
 Ltac split_code x k :=
@@ -246,7 +192,7 @@ Proof. exists (OFifoRsp [4660; 22136]), (MReadFifoRsp [4660; 22136]). repeat spl
 
 Definition decoded_matches (m : msg) (r : res obj) : bool :=
   match r with
-  | Ok o => match abs o with Some d => msg_matches m d | None => false end
+  | Ok o => cls_eqb (class_of o) (spec_class m) && match abs o with Some d => msg_matches m d | None => false end
   | Raise _ => false
   end.
 
